@@ -1,14 +1,19 @@
-"""rs2v plug-in for C16: the tables of src/bytes.rs -> coq/Generated/GenBytes.v.
+"""rs2v plug-in for C16: the tables and constants of src/bytes.rs -> coq/Generated/GenBytes.v.
 
-Reads, with a narrow grammar and nothing else:
+Reads, with a narrow grammar and nothing else (a fact is emitted only when it was read):
   * `const NAME: u64 = 1 << k;` / `const NAME: u64 = OTHER << k;`  (multipliers as shift counts)
   * the digit class of `is_digit`:  matches!(c, '0'..='9' | '.')
   * the suffix match of `FromStr for Bytes`: arms `"lit" (| "lit")* => 1 | NAME,` and one `_ =>` error arm,
     matched on `suffix.to_lowercase().as_str()`
-  * the final expression `Ok(Bytes(float_to_int(value * int_to_float(multiple))))`
-  * `DISPLAY_SUFFIXES`, the `while value >= T { value /= D; i += 1; }` loop, the singular/plural
-    words chosen by `value == 1.0`, the `{value:.P}` precision and the two `trim_end_matches` calls.
-Anything else -> Untranslatable -> `translated = false` -> the obligation c16_sources_translated fails.
+  * the well-formedness test `digits.parse::<f64>().map_err(..)?;` (its value unused) and the integer evaluation:
+    `digits.split_once('C')`, the whole-part loop `integer.saturating_mul(B).saturating_add(u128::from(digit))` over
+    `to_digit(B)`, the fraction loop over `.chars().rev()` with `(u128::from(digit) * multiple + partial) / B`, the
+    saturating combination and `u64::try_from(count).unwrap_or(u64::MAX)`  (one base B everywhere)
+  * `DISPLAY_SUFFIXES`, the `while value >= T { value /= D; unit = unit.saturating_mul(U); i += 1; }` loop, the
+    singular/plural words chosen by `value == 1.0`, the decimals computed from the integer
+    (`S * u128::from(self.0)`, quotient / remainder by `unit`, the three-way half-even match), the
+    `"{}.{:0W}"` format of `hundredths / S`, `hundredths % S` and the two `trim_end_matches` calls.
+Anything else -> Untranslatable (rs2v keeps the reference tables and the check says so).
 """
 import re
 from rs2v import Untranslatable, read, strip_tests, strip_comments
@@ -48,13 +53,31 @@ def gen_bytes(repo):
         raise Untranslatable("is_digit is not matches!(c, 'a'..='b' | 'c')")
     for need in ("let digits = text.chars().take_while(is_digit).collect::<String>();",
                  "let suffix = text.chars().skip_while(is_digit).collect::<String>();",
-                 "let value = digits.parse::<f64>().map_err(",
-                 "let multiple = match suffix.to_lowercase().as_str() {",
-                 "Ok(Bytes(float_to_int(value * int_to_float(multiple))))"):
+                 "; digits.parse::<f64>().map_err(|source| Error::ByteParse { text: text.to_owned(), source, })?; let multiple = match",
+                 "let multiple = match suffix.to_lowercase().as_str() {"):
         if need not in body:
             raise Untranslatable("FromStr for Bytes: expected %r" % need)
-    if not (body.index("let digits") < body.index("let suffix") < body.index("let value") < body.index("let multiple")
-            < body.index("Ok(Bytes(float_to_int")):
+    ev = re.search(
+        r"\}; let multiple = u128::from\(multiple\); "
+        r"let \(whole, fraction\) = digits\.split_once\('(.)'\)\.unwrap_or\(\(&digits, \"\"\)\); "
+        r"let mut integer: u128 = 0; "
+        r"for digit in whole\.chars\(\)\.filter_map\(\|c\| c\.to_digit\((\d+)\)\) \{ "
+        r"integer = integer\.saturating_mul\((\d+)\)\.saturating_add\(u128::from\(digit\)\); \} "
+        r"let mut partial: u128 = 0; "
+        r"for digit in fraction\.chars\(\)\.rev\(\)\.filter_map\(\|c\| c\.to_digit\((\d+)\)\) \{ "
+        r"partial = \(u128::from\(digit\) \* multiple \+ partial\) / (\d+); \} "
+        r"let count = integer\.saturating_mul\(multiple\)\.saturating_add\(partial\); "
+        r"Ok\(Bytes\(u64::try_from\(count\)\.unwrap_or\(u64::MAX\)\)\) \}$", body)
+    if not ev:
+        raise Untranslatable("FromStr for Bytes: the integer evaluation after the unit table is not the expected "
+                             "split / whole loop / reversed fraction loop / saturating sum")
+    bases = {int(ev.group(k)) for k in (2, 3, 4, 5)}
+    if len(bases) != 1:
+        raise Untranslatable("FromStr for Bytes: the number base differs between to_digit, the whole loop and the fraction loop: %r" % sorted(bases))
+    parse_base = bases.pop()
+    split_char = ev.group(1)
+    if not (body.index("let digits") < body.index("let suffix") < body.index("digits.parse::<f64>") < body.index("let multiple = match")
+            < body.index("let multiple = u128::from")):
         raise Untranslatable("FromStr for Bytes: statements out of the expected order")
     mt = re.search(r"let multiple = match suffix\.to_lowercase\(\)\.as_str\(\) \{(.*?)_ => \{ return Err\(Error::ByteSuffix", body)
     if not mt:
@@ -73,11 +96,9 @@ def gen_bytes(repo):
         for lit in re.findall(r'"([^"\\]*)"', am.group(1)):
             units.append((lit, sh))
         pos = am.end()
-    # the helpers are plain `as` casts
-    for fn, ex in (("float_to_int", r"fn float_to_int\(x: f64\) -> u64 \{\s*(?:#!\[allow\(.*?\)\]\s*)?x as u64\s*\}"),
-                   ("int_to_float", r"fn int_to_float\(x: u64\) -> f64 \{\s*(?:#!\[allow\(.*?\)\]\s*)?x as f64\s*\}")):
-        if not re.search(ex, src, re.S):
-            raise Untranslatable("%s is not a plain cast" % fn)
+    # the helper is a plain `as` cast
+    if not re.search(r"fn int_to_float\(x: u64\) -> f64 \{\s*(?:#!\[allow\(.*?\)\]\s*)?x as f64\s*\}", src, re.S):
+        raise Untranslatable("int_to_float is not a plain cast")
     # --- Display
     m = re.search(r"impl Display for Bytes \{(.*?)\n\}\n", src, re.S)
     if not m:
@@ -87,16 +108,29 @@ def gen_bytes(repo):
     if not sm or not re.fullmatch(r'\s*(?:"[^"\\]*"\s*,\s*)*"[^"\\]*"\s*,?\s*', sm.group(1)):
         raise Untranslatable("DISPLAY_SUFFIXES")
     suffixes = re.findall(r'"([^"\\]*)"', sm.group(1))
-    pat = (r"let mut value = int_to_float\(self\.0\); let mut i = 0; "
-           r"while value >= ([0-9.]+) \{ value /= ([0-9.]+); i \+= 1; \} "
+    pat = (r"let mut value = int_to_float\(self\.0\); let mut i = 0; let mut unit: u128 = 1; "
+           r"while value >= ([0-9.]+) \{ value /= ([0-9.]+); unit = unit\.saturating_mul\((\d+)\); i \+= 1; \} "
            r'let suffix = if i == 0 \{ if value == 1\.0 \{ "([^"\\]*)" \} else \{ "([^"\\]*)" \} \} else \{ DISPLAY_SUFFIXES\[i - 1\] \}; '
-           r'let formatted = format!\("\{value:\.(\d+)\}"\); '
+           r"let scaled = (\d+) \* u128::from\(self\.0\); "
+           r"let quotient = scaled / unit; "
+           r"let hundredths = match \(2 \* \(scaled % unit\)\)\.cmp\(&unit\) \{ "
+           r"Ordering::Less => quotient, Ordering::Equal => quotient \+ quotient % 2, Ordering::Greater => quotient \+ 1, \}; "
+           r'let formatted = format!\("\{\}(.)\{:0(\d+)\}", hundredths / (\d+), hundredths % (\d+)\); '
            r"let trimmed = formatted\.trim_end_matches\('(.)'\)\.trim_end_matches\('(.)'\); "
            r'write!\(f, "\{trimmed\} \{suffix\}"\)')
     dm2 = re.search(pat, d)
     if not dm2:
-        raise Untranslatable("Display for Bytes body is not the expected loop/format/trim sequence")
+        raise Untranslatable("Display for Bytes body is not the expected unit loop / exact hundredths / format / trim sequence")
     thr, div = lit_float_int(dm2.group(1)), lit_float_int(dm2.group(2))
+    unit_factor = int(dm2.group(3))
+    scales = {int(dm2.group(6)), int(dm2.group(9)), int(dm2.group(10))}
+    if len(scales) != 1:
+        raise Untranslatable("Display for Bytes: the scale of the decimals differs between its uses: %r" % sorted(scales))
+    disp_scale = scales.pop()
+    width = int(dm2.group(8))
+    if 10 ** width != disp_scale:
+        raise Untranslatable("Display for Bytes: %d decimals printed for a scale of %d" % (width, disp_scale))
+    point = dm2.group(7)
     out = "Definition translated : bool := true.\n"
     out += "(* digit class of FromStr: lo..=hi | extra *)\n"
     out += "Definition digit_lo : N := %d.\nDefinition digit_hi : N := %d.\nDefinition digit_extra : N := %d.\n" % (
@@ -106,10 +140,16 @@ def gen_bytes(repo):
         "(%s, %d) (* %r *)" % (cps(s), sh, s) for s, sh in units) + " ].\n"
     out += "Definition display_suffixes : list (list N) :=\n  [ " + ";\n    ".join(
         "%s (* %s *)" % (cps(s), s) for s in suffixes) + " ].\n"
-    out += "Definition disp_threshold : N := %d.\nDefinition disp_divisor : N := %d.\nDefinition disp_precision : N := %s.\n" % (
-        thr, div, dm2.group(5))
-    out += "Definition word_one : list N := %s.\nDefinition word_many : list N := %s.\n" % (cps(dm2.group(3)), cps(dm2.group(4)))
-    out += "Definition trim_first : N := %d.\nDefinition trim_second : N := %d.\n" % (ord(dm2.group(6)), ord(dm2.group(7)))
+    out += "Definition disp_threshold : N := %d.\nDefinition disp_divisor : N := %d.\nDefinition disp_unit_factor : N := %d.\n" % (
+        thr, div, unit_factor)
+    out += "(* the two decimals are computed from the integer itself: scale * n / unit, ties to even *)\n"
+    out += "Definition decimals_from_integer : bool := true.\n"
+    out += "Definition disp_scale : N := %d.\nDefinition disp_precision : N := %d.\nDefinition disp_point : N := %d.\n" % (
+        disp_scale, width, ord(point))
+    out += "Definition word_one : list N := %s.\nDefinition word_many : list N := %s.\n" % (cps(dm2.group(4)), cps(dm2.group(5)))
+    out += "Definition trim_first : N := %d.\nDefinition trim_second : N := %d.\n" % (ord(dm2.group(11)), ord(dm2.group(12)))
+    out += "(* FromStr evaluates the accepted digits in integer arithmetic *)\n"
+    out += "Definition parse_base : N := %d.\nDefinition split_char : N := %d.\n" % (parse_base, ord(split_char))
     return out
 
 
@@ -117,9 +157,12 @@ def gen_bytes_fallback():
     return ("Definition translated : bool := false.\n"
             "Definition digit_lo : N := 0.\nDefinition digit_hi : N := 0.\nDefinition digit_extra : N := 0.\n"
             "Definition units : list (list N * N) := [].\nDefinition display_suffixes : list (list N) := [].\n"
-            "Definition disp_threshold : N := 0.\nDefinition disp_divisor : N := 0.\nDefinition disp_precision : N := 0.\n"
+            "Definition disp_threshold : N := 0.\nDefinition disp_divisor : N := 0.\nDefinition disp_unit_factor : N := 0.\n"
+            "Definition decimals_from_integer : bool := false.\n"
+            "Definition disp_scale : N := 0.\nDefinition disp_precision : N := 0.\nDefinition disp_point : N := 0.\n"
             "Definition word_one : list N := [].\nDefinition word_many : list N := [].\n"
-            "Definition trim_first : N := 0.\nDefinition trim_second : N := 0.\n")
+            "Definition trim_first : N := 0.\nDefinition trim_second : N := 0.\n"
+            "Definition parse_base : N := 0.\nDefinition split_char : N := 0.\n")
 
 
 GENERATORS = {"GenBytes": (gen_bytes, gen_bytes_fallback, "src/bytes.rs")}
